@@ -923,7 +923,8 @@ func (p *Parser) parseQualifiedName() (string, error) {
 	// Check for schema.table or db.schema.table
 	for p.isType(models.TokenTypePeriod) {
 		p.advance() // Consume .
-		if !p.isIdentifier() && !p.isNonReservedKeyword() {
+		// After a qualifier a generic keyword is a name (information_schema.tables)
+		if !p.isIdentifier() && !p.isNonReservedKeyword() && !p.isType(models.TokenTypeKeyword) {
 			return "", p.expectedError("identifier after .")
 		}
 		name = name + "." + p.currentToken.Literal
